@@ -3,7 +3,7 @@
 From Coq Require Import String List NArith Bool.
 From J5V.model Require Import Conc ConcSites ConcCorr ConcRace ConcStatement ConcState.
 From J5V.gen Require ConcGen ConcStateGen.
-From J5V.proofs Require Import ConcProofs ConcInvProofs ConcTermProofs ConcMainProofs ConcRetProofs ConcRaceProofs ConcFullProofs.
+From J5V.proofs Require Import ConcProofs ConcLeafProofs ConcInvProofs ConcTermProofs ConcMainProofs ConcRetProofs ConcRaceProofs ConcFullProofs.
 Import ListNotations.
 Local Open Scope N_scope.
 
@@ -29,13 +29,45 @@ Example C10_reach_out_of_fuel_example :
   site_guarded deep_table ("A"%string, true, ["call:b"%string]) = false.
 Proof. exact reaches_shared_out_of_fuel. Qed.
 
-Theorem C10_cache_methods_agree : ConcGen.cache_methods = expected_cache_methods.
+(* access sequences, token by token in source order, after dropping the READS of RefSchema.To
+   (project_tab); the side condition that makes dropping them sound — the functions concerned run
+   only with sc.mu held — is C10_projected_reads_under_lock, a named part of census_ok *)
+Theorem C10_cache_methods_agree : project_tab ConcGen.cache_methods = expected_cache_methods.
 Proof. exact cache_methods_agree. Qed.
 Print Assumptions C10_cache_methods_agree.
 
-Theorem C10_placeholder_functions_agree : ConcGen.placeholder_functions = expected_placeholder_functions.
+Theorem C10_placeholder_functions_agree : project_tab ConcGen.placeholder_functions = expected_placeholder_functions.
 Proof. exact placeholder_functions_agree. Qed.
 Print Assumptions C10_placeholder_functions_agree.
+
+Theorem C10_projected_reads_under_lock :
+  projected_reads_ok ConcStateGen.lockfree_fns ConcStateGen.state_writes = true /\
+  (forall t toks, In t toks -> ~ In t (project toks) -> t = "read:To"%string).
+Proof. exact (conj census_projected_reads project_only_drops_to_reads). Qed.
+Print Assumptions C10_projected_reads_under_lock.
+
+(* where the read of To that /repo 32db692 added to buildEnumFieldSchema (the `else` branch after
+   newRefPlaceholder: the ref existed) sits in the machine: the hit branch of the PRefLookup step for a
+   name without references (an enum), in the same step as the lookup — no hook point in between —,
+   hence inside the critical section under Guarded.  It never finds To == nil there, under EITHER
+   discipline, at any point of any run: a node without references is registered and linked within
+   one step.  (The type check itself tells an enum from a message registered under the same
+   flattened name — a collision the universes of the machine do not contain.) *)
+Theorem C10_enum_guard_read_sees_linked : forall g d k calls sched m c,
+  refs g m = [] ->
+  lookup (cmap (s_sh (run d k g calls sched))) m = Some c ->
+  exists fs, cell_to (s_sh (run d k g calls sched)) c = Some fs.
+Proof. exact leaf_hit_is_linked. Qed.
+Print Assumptions C10_enum_guard_read_sees_linked.
+
+(* non-vacuous: thread 0 builds type 1 = {enum 2} and stops before linking 1; thread 1, without the
+   lock, is inside the build of 3 = {enum 2}: its lookup of the enum hits, the enum is linked, while
+   type 1 itself is still a placeholder *)
+Example C10_enum_guard_read_example :
+  let st := run Unguarded 3 [(1, [2]); (2, []); (3, [2])] [[1]; [3]] [0; 0; 0; 0; 0; 1; 1; 1]%nat in
+  lookup (cmap (s_sh st)) 2 = Some 1%nat /\ cell_to (s_sh st) 1%nat = Some [] /\
+  cell_to (s_sh st) 0%nat = None /\ label_of st 1%nat = 4.
+Proof. vm_compute. repeat split; reflexivity. Qed.
 
 (* the cache is the only mutable state a codec call can reach.  Not a list of known names:
    harness/cmd/gen_conc/state.go type-checks lib/j5codec, internal/codec, lib/j5reflect,
@@ -67,6 +99,44 @@ Theorem C10_census_parts :
 Proof. exact (conj census_vars_only_initialised (conj census_lf_reads_no_locked_field (conj census_holders census_lk_writes_to_fresh))). Qed.
 Print Assumptions C10_census_parts.
 
+(* THE CODEC WALK UNDER CONCURRENCY as a census obligation (computed, within the census limits): pick
+   any write, anywhere in the analysed packages, to a field that a function on the lock-free part of a
+   codec call reads.  Its function is not on the lock-free part; and if it runs inside Schema, the
+   object it writes to was created in the critical section in progress (not handed to anybody yet) —
+   or the field is RefSchema.To, written by one of the four functions of the token tables on the
+   placeholder it registered.  With walk_ok (no package-level variable assigned after initialisation,
+   no stored function value called, no goroutine started, no per-call type reachable from a long-lived
+   object, only allow-listed foreign packages): what a walk reads is frozen while it can be read. *)
+Theorem C10_codec_walk_reads_frozen : forall w,
+  In w ConcStateGen.state_writes -> is_field_target (w_target w) = true ->
+  In (strip_field (w_target w)) ConcStateGen.lf_read_fields ->
+  ~ In (w_fn w) ConcStateGen.lockfree_fns /\
+  (In (w_fn w) ConcStateGen.locked_fns ->
+   exists o, In (w_fn w, strip_field (w_target w), o) ConcStateGen.lk_field_writes /\
+             lk_entry_ok (w_fn w, strip_field (w_target w), o) = true).
+Proof. exact walk_reads_are_frozen. Qed.
+Print Assumptions C10_codec_walk_reads_frozen.
+
+Theorem C10_codec_walk_census : walk_ok = true.
+Proof. exact census_walk. Qed.
+Print Assumptions C10_codec_walk_census.
+
+(* non-vacuous (buildSchemaProperty writes ObjectProperty.Schema, which the walk reads, on a fresh
+   object), and discriminating *)
+Example C10_codec_walk_example :
+  In ("j5schema.Package.buildSchemaProperty", "field:j5schema.ObjectProperty.Schema", "set")%string ConcStateGen.state_writes /\
+  In "j5schema.ObjectProperty.Schema"%string ConcStateGen.lf_read_fields /\
+  In "j5schema.Package.buildSchemaProperty"%string ConcStateGen.locked_fns /\
+  walk_reads_frozen ConcStateGen.lockfree_fns ConcStateGen.locked_fns ConcStateGen.lf_read_fields
+                    (unclassified_write :: ConcStateGen.state_writes) ConcStateGen.lk_field_writes = false /\
+  walk_reads_frozen ConcStateGen.lockfree_fns ConcStateGen.locked_fns ConcStateGen.lf_read_fields
+                    (walk_memo_write :: ConcStateGen.state_writes) ConcStateGen.lk_field_writes = false.
+Proof.
+  split; [|split; [|split; [|exact walk_rejects_regressions]]];
+    apply in_strs_In || idtac; try (vm_compute; reflexivity).
+  vm_compute. tauto.
+Qed.
+
 (* the checks discriminate: a memo map in the Reflector filled by NewRoot (directly or through
    a local alias), a package-level cache filled inside Schema, a new mutable field on a
    long-lived object, a per-call type becoming reachable from one, a locked function that
@@ -77,7 +147,10 @@ Example C10_census_rejects_regressions :
   vars_only_initialised (pkg_cache_write :: ConcStateGen.state_writes) = false /\
   holders_hold_only_the_cache (("j5reflect.Reflector.rootProps"%string, "map[string]*j5reflect.propSet"%string, true) :: ConcStateGen.shared_fields) = false /\
   forallb shared_type_ok ("j5reflect.propSet"%string :: ConcStateGen.shared_types) = false /\
-  lk_writes_to_fresh (republish_write :: ConcStateGen.lk_field_writes) = false.
+  lk_writes_to_fresh (republish_write :: ConcStateGen.lk_field_writes) = false /\
+  (* a function of the token tables that reads To becoming reachable without the lock *)
+  projected_reads_ok ("j5schema.buildEnumFieldSchema"%string :: ConcStateGen.lockfree_fns) ConcStateGen.state_writes = false /\
+  projected_reads_ok ("j5schema.SchemaCache.schemaLocked"%string :: ConcStateGen.lockfree_fns) ConcStateGen.state_writes = false.
 Proof. exact census_rejects_regressions. Qed.
 
 (* ---- the guarded discipline: for ALL type universes (cyclic or not, with or without
